@@ -168,22 +168,6 @@ theorem C03_element_value (S : Schema) (cv : Conv) (tag : Str) (x tl : Option St
       exact ⟨w, by rw [hv, ← hpv], rfl⟩
 
 
-theorem FieldsMatch.mem {P : Attr → Node → Prop} {L : List Attr} {fs : List (Str × Node)}
-    (h : FieldsMatch P L fs) : ∀ n w, (n, w) ∈ fs → ∃ a ∈ L, a.name = n ∧ a.kind.isUnsupported = false ∧ P a w := by
-  induction h with
-  | nil => intro n w hm; simp at hm
-  | unsup b L fs hb _ ih =>
-    intro n w hm
-    obtain ⟨a, ha, h1⟩ := ih n w hm
-    exact ⟨a, by simp [ha], h1⟩
-  | field b v L fs hb hp _ ih =>
-    intro n w hm
-    simp only [List.mem_cons, Prod.mk.injEq] at hm
-    rcases hm with ⟨rfl, rfl⟩ | hm
-    · exact ⟨b, by simp, rfl, hb, hp⟩
-    · obtain ⟨a, ha, h1⟩ := ih n w hm
-      exact ⟨a, by simp [ha], h1⟩
-
 /-- where a keyword of the accumulator comes from: a known, non-repeated child -/
 def FromChild (c : Cls) (ts : List Tree) (ss : List (PyM Node)) (n : Str) (raw : Node) : Prop :=
   ∃ ch sub idx, (ch, sub) ∈ ts.zip ss ∧ '.' ∉ ch.tag ∧ lower ch.tag = n ∧ specIndex c n = some idx ∧
@@ -460,23 +444,76 @@ theorem mapM_applyArg_eq (S : Schema) (c : Cls) : ∀ (args items : List Node),
             · cases ha
         rw [this, mapM_applyArg_eq S c args r hr]
 
-/-- **C03 (repeated members: nothing invented).** Every member of an accepted document's instance (of a plain
-    aggregate) is the conversion of a child of the document carrying the tag of a repeated attribute. -/
+/-- what `_apply_args` makes of one positional argument: the member itself if it is an instance of a list
+    class (plain aggregate), the list element's conversion of it (`ElementList`) -/
+def applyOne (S : Schema) (cv : Conv) (c : Cls) (raw : Node) : PyM Node :=
+  if c.elementList then
+    match c.spec.filter (fun a => a.kind.isListElem) with
+    | [a] =>
+      match a.kind with
+      | .listElem inner ireq => (cv.convert S.enums inner ireq (Node.toVal raw)).map Node.val
+      | _ => .error .assert
+    | _ => .error .assert
+  else applyArg S c raw
+
+theorem applyArgs_mapM (S : Schema) (cv : Conv) (c : Cls) (args items : List Node)
+    (h : applyArgs S cv c args = .ok items) : args.mapM (m := PyM) (applyOne S cv c) = .ok items := by
+  unfold applyArgs at h
+  cases hel : c.elementList with
+  | false =>
+    simp only [hel, Bool.false_eq_true, if_false] at h
+    have : applyOne S cv c = applyArg S c := by funext r; simp [applyOne, hel]
+    rw [this]; exact h
+  | true =>
+    simp only [hel, if_true] at h
+    split at h
+    · rename_i a hf
+      split at h
+      · rename_i inner ireq hk
+        have : applyOne S cv c = fun m => (cv.convert S.enums inner ireq (Node.toVal m)).map Node.val := by
+          funext r; simp [applyOne, hel, hf, hk]
+        rw [this]; exact h
+      · cases h
+    · cases h
+
+theorem mapM_mem {α β} (f : α → PyM β) : ∀ (l : List α) (r : List β), l.mapM (m := PyM) f = .ok r →
+    ∀ y ∈ r, ∃ x ∈ l, f x = .ok y
+  | [], r, h, y, hy => by
+    simp [List.mapM_nil, pure, Except.pure] at h; subst h; simp at hy
+  | x :: l, r, h, y, hy => by
+    rw [List.mapM_cons] at h
+    cases hx : f x with
+    | error e => simp [hx, bind, Except.bind] at h
+    | ok x' =>
+      cases hl : l.mapM (m := PyM) f with
+      | error e => simp [hx, hl, bind, Except.bind] at h
+      | ok l' =>
+        simp only [hx, hl, bind, Except.bind, pure, Except.pure] at h
+        injection h with h; subst h
+        simp only [List.mem_cons] at hy
+        rcases hy with rfl | hy
+        · exact ⟨x, by simp, hx⟩
+        · obtain ⟨z, hz, hfz⟩ := mapM_mem f l l' hl y hy
+          exact ⟨z, by simp [hz], hfz⟩
+
+/-- **C03 (repeated members: nothing invented).** Every member of an accepted document's instance is what
+    `_apply_args` makes (`applyOne`: the member itself for a plain aggregate, the list element's conversion of
+    the text for an `ElementList`) of a child of the document carrying the tag of a repeated attribute. -/
 theorem C03_members_from_children (S : Schema) (cv : Conv) (tag : Str) (x tl : Option Str)
     (children : List Tree) (ci : Nat) (c : Cls) (fields : List (Str × Node)) (items : List Node) (cj : Nat)
     (hfind : S.findIdx? tag = some ci) (hcls : S.cls? ci = some c) (hg : c.groom = none)
-    (hel : c.elementList = false)
     (h : fromEtree S cv (.node tag x tl children) = .ok (.agg cj fields items)) (m : Node) (hm : m ∈ items) :
     ∃ ch ∈ children, '.' ∉ ch.tag ∧ isListMember c (lower ch.tag) = true ∧
-      (m = .val .none ∨ childValue ch (fromEtree S cv ch) = .ok m) := by
+      ∃ raw, (raw = .val .none ∨ childValue ch (fromEtree S cv ch) = .ok raw) ∧ applyOne S cv c raw = .ok m := by
   simp only [fromEtree, convertNode, hfind, hcls] at h
   by_cases hemp : children.isEmpty = true
   · simp only [hemp, if_true] at h
     obtain ⟨c', fields', items', hc', _, _, happ, _, hn⟩ := (construct_ok_iff S cv ci [] [] _).mp h
     rw [hcls] at hc'; injection hc' with hc'; subst hc'
     injection hn with _ _ hi'; subst hi'
-    simp only [applyArgs, hel, Bool.false_eq_true, if_false, List.mapM_nil, pure, Except.pure] at happ
-    injection happ with happ; subst happ; simp at hm
+    have := applyArgs_mapM S cv c [] items happ
+    simp only [List.mapM_nil, pure, Except.pure] at this
+    injection this with this; subst this; simp at hm
   · simp only [hemp, Bool.false_eq_true, if_false] at h
     cases hf : foldChildren c children (childInsts S cv children) Accum.init with
     | error e => simp [hf, bind, Except.bind] at h
@@ -485,14 +522,12 @@ theorem C03_members_from_children (S : Schema) (cv : Conv) (tag : Str) (x tl : O
       obtain ⟨c', fields', items', hc', _, _, happ, _, hn⟩ := (construct_ok_iff S cv ci acc.args acc.kwargs _).mp h
       rw [hcls] at hc'; injection hc' with hc'; subst hc'
       injection hn with _ _ hi'; subst hi'
-      simp only [applyArgs, hel, Bool.false_eq_true, if_false] at happ
-      have := mapM_applyArg_eq S c acc.args items happ
-      subst this
-      rcases foldChildren_args_origin c hg children _ Accum.init acc hf m hm with h0 | ⟨ch, sub, hmem, hd, hil, idx, _, hv⟩
+      obtain ⟨raw, hraw, hone⟩ := mapM_mem _ acc.args items (applyArgs_mapM S cv c acc.args items happ) m hm
+      rcases foldChildren_args_origin c hg children _ Accum.init acc hf raw hraw with h0 | ⟨ch, sub, hmem, hd, hil, idx, _, hv⟩
       · simp [Accum.init] at h0
       · obtain ⟨hch, hsub⟩ := mem_zip_childInsts S cv children ch sub hmem
         subst hsub
-        refine ⟨ch, hch, hd, hil, ?_⟩
+        refine ⟨ch, hch, hd, hil, raw, ?_, hone⟩
         split at hv
         · exact Or.inl hv
         · exact Or.inr hv
